@@ -284,6 +284,10 @@ struct FnEmitter {
     if (C.inRoots(F->getLocation())) O["floc"] = C.locStr(F->getLocation());
     addType(O, F->getReturnType(), "ret");
     if (F->isNoReturn()) O["noreturn"] = true;
+    json::Array PT;
+    for (unsigned I = 0; I < F->getNumParams(); ++I)
+      PT.push_back(C.typeStr(F->getParamDecl(I)->getType()));
+    O["pt"] = std::move(PT);
     // parameter types that are non-const reference / pointer (out-params)
     json::Array Outs;
     for (unsigned I = 0; I < F->getNumParams(); ++I) {
